@@ -23,6 +23,8 @@ def run(tier, seed):
     from .c14 import SplitReal
     scfgs = fam.fam_split(thorough=th)
     common.code_to_spec(chk, scfgs, lambda c: SplitReal(c), tag='split', split='cfg', chk_fields=())
+    # larger seeded portfolios: every step of the reported dispatch must be a balanced joint move of the reference model
+    common.code_to_spec(chk, fam.fam_random(seed, n=12 if not th else 60, T=12 if not th else 24), lambda c: R.Real(c), tag='random', chk_fields=(), solvers=('SCIPY',))
     # (c) all asset types, all routes: light abstraction
     common.zoo_portfolio_traces(chk, seeds=range(seed, seed + (2 if not th else 8)), clause_filter=is_c01, clauses=('balance',))
     if th:
